@@ -46,7 +46,8 @@
         C02_later_statements_partial_noH2, C02_clean_shutdown_noH2, C02_recovery_total_noH2.
         Still assuming (H2): C02_do_redo (one statement on arbitrary Good stores; use
         C02_moves_from_rep to discharge it in a store satisfying Rep and SelfOk) and the `hist_ok`
-        versions with EvCrashInLog / EvTornFlush events (C03 / C04). `Rep` alone does not give (H2):
+        versions of the C03 / C04 theorems (their `_noH1H2` versions in C03.v / C04.v assume neither
+        (H1) nor (H2): `hist_ok1` / `hist_ok2` admit EvCrashInLog / EvTornFlush too). `Rep` alone does not give (H2):
         it leaves the offset stored in sys_pages' own, never-maintained catalog row unconstrained;
         `SelfOk` (that row holds the first page's offset, every other root lies above) closes the
         gap and is an invariant of every reachable store. *)
@@ -273,7 +274,9 @@ Qed.
    `hist_ok1` per statement: (H1) stmt_atomic; RefineMain.stmt_ok (literals are Go values: integers
    within int64, strings shorter than 2^32 bytes); the allocation frontier after the statement is
    <= OFFMAX = 2^63 (file offsets are int64). Events: statements, flushes, crash-restarts - the
-   whole quantifier of C02; EvCrashInLog / EvTornFlush (C03 / C04) are not admitted by hist_ok1.
+   whole quantifier of C02 - and also EvCrashInLog st j (asks of st what EvStmt st asks) and
+   EvTornFlush W (asks nothing): MovesFromRep.RInv_step re-establishes both invariants after the
+   recovery these C03 / C04 events perform (C03.v / C04.v: the `_noH1H2` theorems).
    `hist_ok1b` is the same as a boolean, with (H1) replaced by Atomic.fails_early (the failing
    statement fails before its first page change - the condition of C01's theorems). *)
 From Mkdb Require Import Proofs.RefineRep Proofs.RefineCat Proofs.RefineMain Proofs.MovesFromRep.
@@ -382,7 +385,8 @@ Qed.
    can fail afterwards; Proofs/HistNoH1.v: `rep_stmt_atomic`). `hist_ok2` is a BOOLEAN on the
    history, per statement: RefineMain.stmt_ok (literals are Go values) and the allocation frontier
    after the statement is <= OFFMAX = 2^63; events: statements - successful or failing in ANY way -,
-   flushes, crash-restarts. hist_ok2 -> hist_ok1 -> hist_ok. *)
+   flushes, crash-restarts, and the C03 / C04 events (EvCrashInLog st j: the same two conditions on
+   st; EvTornFlush W: none). hist_ok2 -> hist_ok1 -> hist_ok. *)
 From Mkdb Require Import Proofs.FailsEarly Proofs.HistNoH1.
 
 (* (H1) in one store *)
